@@ -30,6 +30,21 @@ type wireCase struct {
 }
 
 func checkWire(c wireCase) *rp.Fail {
+	f := runWire(c, 1)
+	if f != nil {
+		// the only timing assumption is that the loopback controller's immediate reply arrives within the timeout: a failure
+		// has to persist with 16 times the timeout (a machine under heavy load otherwise shows up as 'i/o timeout')
+		if f2 := runWire(c, 16); f2 == nil {
+			ev.Inconclusive(1)
+			return nil
+		} else {
+			f = f2
+		}
+	}
+	return f
+}
+
+func runWire(c wireCase, scale int) *rp.Fail {
 	c.Call = accepted(c.Call)
 	f := farm.New()
 	defer f.Close()
@@ -40,7 +55,7 @@ func checkWire(c wireCase) *rp.Fail {
 		}
 		return []farm.Action{{Data: c.Reply}}
 	}
-	cfg := hook.ClientCfg{TimeoutMs: 250, BindIP: [4]byte{127, 0, 0, 1}, Debug: c.Debug}
+	cfg := hook.ClientCfg{TimeoutMs: 250 * scale, BindIP: [4]byte{127, 0, 0, 1}, Debug: c.Debug}
 	var port uint16
 	for try := 0; try < 20 && port == 0; try++ {
 		p, err := farm.FreePort(ip)
@@ -83,13 +98,15 @@ func checkWire(c wireCase) *rp.Fail {
 	u := hook.Real(cfg)
 	res := api.Invoke(u, api.Case{Call: c.Call, V: api.Variant{}})
 	expected := spec.Decode(c.Call, want, c.Reply)
-	class := fmt.Sprintf("wire/%s", c.Path)
-	ev.Case(class, true, fmt.Sprintf("%s %s %x", c.Call.Op, c.Path, c.Reply))
-	if c.Echo {
-		ev.Class("wire/reply-identical-to-request", 1)
-	}
-	if c.SamePort {
-		ev.Class("wire/bind-port-equals-destination-port", 1)
+	if scale == 1 {
+		class := fmt.Sprintf("wire/%s", c.Path)
+		ev.Case(class, true, fmt.Sprintf("%s %s %x", c.Call.Op, c.Path, c.Reply))
+		if c.Echo {
+			ev.Class("wire/reply-identical-to-request", 1)
+		}
+		if c.SamePort {
+			ev.Class("wire/bind-port-equals-destination-port", 1)
+		}
 	}
 	if msg := api.Compare(res, expected); msg != "" {
 		return rp.Failf("uhppote."+c.Call.Op+"/real-driver/"+c.Path, "%s over %s through the real driver (bind port %d, destination port %d) with reply %x: %s", c.Call.Op, c.Path, cfg.BindPort, port, c.Reply, msg)
